@@ -97,6 +97,12 @@ class SxBytes(metaclass=_Meta):
             return mk_bytes([check_byte(i) for i in x])
         if hasattr(x, '_sx_bytes'):
             return x._sx_bytes()
+        if not isinstance(x, (_b.bytes, _b.bytearray, _b.int, memoryview)) and hasattr(type(x), '__bytes__') \
+                and len(args) == 1 and not kw:
+            r = x.__bytes__()
+            if not isinstance(r, (_b.bytes, SymBytes)):
+                raise TypeError(f'__bytes__ returned non-bytes (type {type(r).__name__})')
+            return r
         return _b.bytes(*args, **kw)
 
     @staticmethod
